@@ -4,7 +4,7 @@ import sys, os
 sys.path.insert(0, os.path.dirname(os.path.dirname(os.path.abspath(__file__))))
 from harness import common
 
-ALL_TRANSLATORS = ['cli', 'pipeline', 'evalsites', 'namegen', 'prectable', 'tokenrules', 'resolve']
+ALL_TRANSLATORS = ['cli', 'pipeline', 'evalsites', 'namegen', 'prectable', 'tokenrules', 'resolve', 'statesites']
 
 if __name__ == '__main__':
     with common.coq_lock():
